@@ -48,7 +48,9 @@ func init() {
 	set("MaxU64", "18446744073709551615")
 }
 
-func c02IntPoint(a string, d int) *big.Int { return new(big.Int).Add(c02Anchors[a], big.NewInt(int64(d))) }
+func c02IntPoint(a string, d int) *big.Int {
+	return new(big.Int).Add(c02Anchors[a], big.NewInt(int64(d)))
+}
 
 func c02MkInt(t string, v *big.Int) interface{} {
 	switch t {
@@ -156,6 +158,22 @@ func c02Concretise(c *c02Case) (val interface{}, exact *big.Float, isNaN bool, i
 	case "float":
 		v, bf := c02MkFloat(c.Src, c.A, c.Rel)
 		return v, bf, false, 0
+	case "halfbelow", "nhalfbelow", "odd52", "nodd52":
+		f := map[string]float64{"halfbelow": 0.49999999999999994, "nhalfbelow": -0.49999999999999994, "odd52": 4503599627370497, "nodd52": -4503599627370497}[c.Kind]
+		return f, new(big.Float).SetPrec(200).SetFloat64(f), false, 0
+	case "strfloatbig":
+		txt := []string{"3e9", "2147483648.0", "-2147483649.0", "1e30", "Inf", "NaN"}[c.D]
+		switch txt {
+		case "Inf":
+			return txt, nil, false, 1
+		case "NaN":
+			return txt, nil, true, 0
+		}
+		bf, _, err := big.ParseFloat(txt, 10, 300, big.ToNearestEven)
+		if err != nil {
+			panic(err)
+		}
+		return txt, bf, false, 0
 	case "nan", "pinf", "ninf", "negzero", "huge", "nhuge":
 		var f float64
 		switch c.Kind {
